@@ -2,6 +2,7 @@ package props
 
 import (
 	"fmt"
+	"go/constant"
 	"go/token"
 	"go/types"
 	"strings"
@@ -246,107 +247,28 @@ func runC43(c *an.Ctx) {
 				"Close() of "+c43TypeName(t)+" does not close the inner iterator "+f+" on every path: closing the composed iterator leaks the underlying one (HTTP body, goroutines)")
 		}
 	}
-	c.Min("O1 wrapper types with an inner Iter field", nO1, 3)
+	c.Min("O1 wrapper types with an inner Iter field", nO1, 1)
 
-	// ---- wrappers of package iter: common yield discipline (O2/O3)
+	// ---- wrappers of package iter: yield discipline (O2/O3), reasoned through same-receiver helper methods
 	nWrap := 0
+	engs := map[string]*c43Eng{}
 	for _, t := range all {
 		if t.named.Obj().Pkg().Path() != an.Mod+"/"+c43Pkg || len(t.inner) != 1 {
 			continue
 		}
 		nWrap++
-		fn := t.next
-		name := an.FuncName(fn)
-		recv := fn.Params[0]
-		calls := c43InnerCalls(fn, t.inner[0], "Next")
-		if len(calls) != 1 || an.CallValue(calls[0]) == nil {
-			c.Problem("%s: expected exactly one call of the inner Next(), found %d", name, len(calls))
+		e := c43NewEng(c, t)
+		if e == nil {
 			continue
 		}
-		call := calls[0]
-		// the done flag: a bool field stored in Next
-		done := ""
-		for _, b := range t.bools {
-			if len(an.StoresToFieldNamed(fn, recv, b)) > 0 {
-				if done != "" {
-					c.Problem("%s: two bool fields stored in Next (%s, %s): done-flag role ambiguous", name, done, b)
-				}
-				done = b
-			}
-		}
-		tr, fa := c43InnerEdges(fn, call, done)
-		if len(tr) == 0 || len(fa) == 0 {
-			c.Problem("%s: cannot identify the edges on which the inner Next() returned true/false", name)
-			continue
-		}
-		isLimit := len(t.ints) > 0
-		ob := "O3"
-		if isLimit {
-			ob = "O2"
-		}
-		for _, r := range an.Returns(fn) {
-			if len(r.Results) != 1 {
-				continue
-			}
-			v := r.Results[0]
-			after := an.Reaches(fn, call, r, nil, nil)
-			switch {
-			case c43IsConstBool(v, false):
-				if !after {
-					continue // early exit before touching the inner iterator
-				}
-				ok := !an.Reaches(fn, call, r, fa, nil)
-				c.Check(ok, ob, "R-DOM", name, "return-false<=inner-false", r.Pos(),
-					"after the inner Next() the iterator reports exhaustion only where the inner one did",
-					"Next() can return false although the inner Next() returned true: the sequence is cut short (e.g. a filter that stops at the first rejected value instead of skipping it)")
-			default:
-				// may return true
-				okDom := !an.Reaches(fn, nil, r, nil, map[ssa.Instruction]bool{call.(ssa.Instruction): true})
-				okEdge := c43IsConstBool(v, true) && !an.Reaches(fn, call, r, tr, nil)
-				if !c43IsConstBool(v, true) {
-					// `return ok` style: the returned value must be the inner result itself
-					okEdge = an.Aliases(an.CallValue(call))[v]
-				}
-				c.Check(okDom && okEdge, ob, "R-DOM", name, "return-true<=inner-true", r.Pos(),
-					"Next() returns true only where the inner Next() returned true",
-					"Next() can return true without the inner Next() having returned true: a value is yielded that the underlying sequence does not contain (stale/duplicate element)")
-			}
-		}
-		if done != "" {
-			// inner Next only where done == false
-			dl := an.LoadsOfFieldNamed(fn, recv, done)
-			guard := an.BoolEdges(fn, dl, false)
-			c.Check(an.GuardedBy(fn, nil, call.(ssa.Instruction), guard), "O3", "R-DOM", name, "inner-Next<=!"+done, call.Pos(),
-				"inner Next() is only called where "+done+" is false",
-				"inner Next() is called although "+done+" is set: the wrapper reads the underlying iterator after it reported exhaustion")
-			// the inner false is recorded on every path
-			blocked := map[ssa.Instruction]bool{}
-			al := an.Aliases(an.CallValue(call))
-			for _, st := range an.StoresToFieldNamed(fn, recv, done) {
-				if u, ok := st.Val.(*ssa.UnOp); ok && u.Op == token.NOT && al[u.X] {
-					blocked[st] = true
-				} else if c43IsConstBool(st.Val, true) && !an.Reaches(fn, call, st, fa, nil) {
-					blocked[st] = true
-				}
-			}
-			okRec := true
-			for _, r := range an.Returns(fn) {
-				// paths on which the inner call returned false: cut the true edges
-				if an.Reaches(fn, call, r, tr, blocked) {
-					okRec = false
-				}
-			}
-			c.Check(okRec, "O3", "R-POST", name, "inner-false=>"+done, call.Pos(),
-				"exhaustion of the inner iterator is recorded in "+done+" on every path",
-				"the inner Next() can return false without "+done+" being set: a later Next() reads the exhausted underlying iterator again")
+		engs[t.named.Obj().Name()] = e
+		e.checkYield()
+		if len(t.ints) > 0 {
+			e.checkLimit()
 		}
 	}
-	c.Min("wrapper types of package iter (Limit, Filter, Map)", nWrap, 3)
+	c.Min("wrapper types of package iter (Limit, Filter, Map)", nWrap, 1)
 
-	// ---- O2: LimitIter
-	if t, ok := byName["LimitIter"]; c.Need(ok && len(t.inner) == 1, "iter.LimitIter with one inner Iter field") {
-		c43Limit(c, t)
-	}
 	// ---- O4: Filter / Map value discipline
 	nO4 := 0
 	for _, t := range all {
@@ -354,9 +276,11 @@ func runC43(c *an.Ctx) {
 			continue
 		}
 		nO4++
-		c43FuncWrapper(c, t)
+		if e := engs[t.named.Obj().Name()]; e != nil {
+			c43FuncWrapper(c, t, e)
+		}
 	}
-	c.Min("O4 wrapper types with a function field (Filter, Map)", nO4, 2)
+	c.Min("O4 wrapper types with a function field (Filter, Map)", nO4, 1)
 
 	// ---- O5: SliceIter
 	if t, ok := byName["SliceIter"]; c.Need(ok, "iter.SliceIter") {
@@ -366,150 +290,6 @@ func runC43(c *an.Ctx) {
 	if t, ok := byName["JSONIter"]; c.Need(ok, "iter.JSONIter") {
 		c43JSON(c, t)
 	}
-}
-
-func c43Limit(c *an.Ctx, t c43Type) {
-	fn := t.next
-	name := an.FuncName(fn)
-	recv := fn.Params[0]
-	calls := c43InnerCalls(fn, t.inner[0], "Next")
-	if len(calls) != 1 {
-		return // reported above
-	}
-	call := calls[0]
-	// roles: count = int field stored in Next, limit = int field not stored in
-	// Next but compared in it
-	var count, limit string
-	for _, f := range t.ints {
-		if len(an.StoresToFieldNamed(fn, recv, f)) > 0 {
-			if count != "" {
-				c.Problem("%s: two int fields stored in Next: counter role ambiguous", name)
-			}
-			count = f
-		}
-	}
-	if count == "" {
-		c.Bad("O2", "R-POST", name, "inner-true=>count++", fn.Pos(), "no integer field of LimitIter is advanced in Next(): yielded values are not counted, the limit is never enforced")
-		return
-	}
-	for _, f := range t.ints {
-		if f != count {
-			if limit != "" {
-				c.Problem("%s: two int fields never stored in Next: limit role ambiguous", name)
-			}
-			limit = f
-		}
-	}
-	if !c.Need(limit != "", "LimitIter limit field (by role: integer field not stored in Next)") {
-		return
-	}
-	isCount := func(v ssa.Value) bool { return an.LoadOfField(v, recv, count) }
-	isLimit := func(v ssa.Value) bool { return an.LoadOfField(v, recv, limit) }
-	// edges on which "limit <= 0" or "count < limit" holds
-	guard := an.GRelEdges(fn, func(r an.GRel) bool {
-		a, b, op := r.A, r.B, r.Op
-		if _, ok := an.IntConst(a); ok {
-			a, b, op = b, a, an.SwapRel(op)
-		}
-		if isLimit(a) {
-			if k, ok := an.IntConst(b); ok {
-				switch op {
-				case token.LEQ, token.EQL:
-					return k <= 0
-				case token.LSS:
-					return k <= 1
-				}
-				return false
-			}
-		}
-		if isLimit(a) && isCount(b) {
-			a, b, op = b, a, an.SwapRel(op)
-		}
-		if isCount(a) && isLimit(b) {
-			return op == token.LSS || op == token.NEQ
-		}
-		return false
-	})
-	c.Check(an.GuardedBy(fn, nil, call.(ssa.Instruction), guard), "O2", "R-CMP", name, "inner-Next<=(limit<=0||count<limit)", call.Pos(),
-		"the inner Next() is reached only where "+limit+"<=0 or "+count+"<"+limit,
-		"the inner Next() is reachable with "+limit+">0 and "+count+">="+limit+": LimitIter consumes an element of the underlying iterator beyond the limit (over-read) or yields more than limit values")
-	// an early `return false` (before the inner call) only where limit>0 and count>=limit
-	limPos := an.GRelEdges(fn, func(r an.GRel) bool {
-		a, b, op := r.A, r.B, r.Op
-		if _, ok := an.IntConst(a); ok {
-			a, b, op = b, a, an.SwapRel(op)
-		}
-		if k, ok := an.IntConst(b); ok && isLimit(a) {
-			return (op == token.GTR && k >= 0) || (op == token.GEQ && k >= 1)
-		}
-		return false
-	})
-	cntGe := an.GRelEdges(fn, func(r an.GRel) bool {
-		a, b, op := r.A, r.B, r.Op
-		if isLimit(a) && isCount(b) {
-			a, b, op = b, a, an.SwapRel(op)
-		}
-		return isCount(a) && isLimit(b) && (op == token.GEQ || op == token.EQL || op == token.GTR)
-	})
-	for _, r := range an.Returns(fn) {
-		if len(r.Results) == 1 && c43IsConstBool(r.Results[0], false) && !an.Reaches(fn, call, r, nil, nil) {
-			ok := an.GuardedBy(fn, nil, r, limPos) && an.GuardedBy(fn, nil, r, cntGe)
-			c.Check(ok, "O2", "R-CMP", name, "early-false<=(limit>0&&count>=limit)", r.Pos(),
-				"Next() stops before consulting the inner iterator only where "+limit+">0 and "+count+">="+limit,
-				"Next() can return false without consulting the inner iterator although "+limit+"<=0 (documented: no limit) or "+count+"<"+limit+": fewer values than the limit are yielded")
-		}
-	}
-	// count++ exactly by one, only where the inner Next returned true
-	tr, fa := c43InnerEdges(fn, call, "")
-	sts := an.StoresToFieldNamed(fn, recv, count)
-	blocked := map[ssa.Instruction]bool{}
-	for _, st := range sts {
-		okStep := false
-		if b, ok := st.Val.(*ssa.BinOp); ok && b.Op == token.ADD {
-			if k, ok := an.IntConst(b.Y); ok && k == 1 && isCount(b.X) {
-				okStep = true
-			} else if k, ok := an.IntConst(b.X); ok && k == 1 && isCount(b.Y) {
-				okStep = true
-			}
-		}
-		c.Check(okStep, "O2", "R-CONST", name, count+"+=1", st.Pos(), "the counter advances by exactly one per yielded value",
-			"the counter is not advanced by exactly 1: the number of yielded values differs from the limit")
-		okEdge := an.Reaches(fn, call, st, nil, nil) && !an.Reaches(fn, call, st, tr, nil) && !an.Reaches(fn, nil, st, nil, map[ssa.Instruction]bool{call.(ssa.Instruction): true})
-		c.Check(okEdge, "O2", "R-DOM", name, count+"++<=inner-true", st.Pos(), "the counter advances only where the inner Next() returned true",
-			"the counter advances although the inner Next() did not return true: fewer than limit values are yielded")
-		if okStep {
-			blocked[st] = true
-		}
-	}
-	c.Min("O2 stores to the LimitIter counter", len(sts), 1)
-	// every path on which the inner Next returned true and Next returns passes count++
-	ok := true
-	for _, r := range an.Returns(fn) {
-		if an.Reaches(fn, call, r, fa, blocked) {
-			ok = false
-		}
-	}
-	c.Check(ok, "O2", "R-POST", name, "inner-true=>"+count+"++", call.Pos(), "every value taken from the inner iterator is counted",
-		"a path returns after the inner Next() returned true without advancing the counter: more than limit values can be yielded")
-	// Val forwards the inner Val
-	okVal := false
-	rets := an.Returns(t.val)
-	if len(rets) > 0 {
-		okVal = true
-		for _, r := range rets {
-			good := false
-			if len(r.Results) == 1 {
-				for _, vc := range c43InnerCalls(t.val, t.inner[0], "Val") {
-					if an.CallValue(vc) != nil && an.Aliases(an.CallValue(vc))[r.Results[0]] {
-						good = true
-					}
-				}
-			}
-			okVal = okVal && good
-		}
-	}
-	c.Check(okVal, "O2", "R-FLOW", an.FuncName(t.val), "Val=inner.Val", t.val.Pos(), "Val() returns the inner iterator's current value",
-		"LimitIter.Val() does not return the inner iterator's Val(): the limited sequence is not a prefix of the underlying one")
 }
 
 // c43ValField: the receiver field whose load Val() returns ("" if none).
@@ -543,101 +323,156 @@ func c43ValField(t c43Type) string {
 	return name
 }
 
-func c43FuncWrapper(c *an.Ctx, t c43Type) {
+func c43FuncWrapper(c *an.Ctx, t c43Type, e *c43Eng) {
 	fn := t.next
 	name := an.FuncName(fn)
 	recv := fn.Params[0]
-	calls := c43InnerCalls(fn, t.inner[0], "Next")
-	if len(calls) != 1 {
+	evs := e.events(fn)
+	if len(evs) == 0 {
 		return
 	}
-	call := calls[0]
+	// reachesFromEvent: `to` can be reached after an inner Next() of this activation without passing a blocked instruction
+	reachesFromEvent := func(to ssa.Instruction, blocked map[ssa.Instruction]bool) bool {
+		for _, ev := range evs {
+			if an.Reaches(fn, ev, to, nil, blocked) {
+				return true
+			}
+		}
+		return false
+	}
 	vf := c43ValField(t)
 	if !c.Need(vf != "", "field returned by "+an.FuncName(t.val)) {
 		return
 	}
 	ff := t.funcs[0]
-	// calls through the function field
-	var fcalls []*ssa.Call
-	for _, cl := range an.AllCalls(fn) {
-		if cv := an.CallValue(cl); cv != nil && !cv.Call.IsInvoke() && an.LoadOfField(cv.Call.Value, recv, ff) {
-			fcalls = append(fcalls, cv)
+	// the call through the function field: in Next or in a same-receiver method it calls
+	var closure []*ssa.Function
+	for _, m := range e.methods {
+		if e.closure[m] {
+			closure = append(closure, m)
 		}
 	}
-	if !c.Need(len(fcalls) == 1, fmt.Sprintf("exactly one call through %s.%s in Next (found %d)", t.named.Obj().Name(), ff, len(fcalls))) {
+	var fcalls []*ssa.Call
+	var cf *ssa.Function
+	for _, m := range closure {
+		for _, cl := range an.AllCalls(m) {
+			if cv := an.CallValue(cl); cv != nil && !cv.Call.IsInvoke() && an.LoadOfField(cv.Call.Value, m.Params[0], ff) {
+				fcalls = append(fcalls, cv)
+				cf = m
+			}
+		}
+	}
+	if !c.Need(len(fcalls) == 1, fmt.Sprintf("exactly one call through %s.%s in Next or the same-receiver methods it calls (found %d)", t.named.Obj().Name(), ff, len(fcalls))) {
 		return
 	}
 	fc := fcalls[0]
-	innerVal := func(v ssa.Value) bool {
-		for _, vc := range c43InnerCalls(fn, t.inner[0], "Val") {
+	cname := an.FuncName(cf)
+	// innerVal: v (in method m) is the inner iterator's Val() read where the inner Next() is known to have returned true
+	innerVal := func(m *ssa.Function, v ssa.Value) bool {
+		for _, vc := range c43InnerCalls(m, t.inner[0], "Val") {
 			if cv := an.CallValue(vc); cv != nil && an.Aliases(cv)[v] {
-				// the Val() read must follow the successful Next()
-				return an.Reaches(fn, call, cv, nil, nil) && !an.Reaches(fn, nil, cv, nil, map[ssa.Instruction]bool{call.(ssa.Instruction): true})
+				return e.guardedSite(m, cv, c43IT, 0)
 			}
 		}
 		return false
 	}
-	sts := an.StoresToFieldNamed(fn, recv, vf)
 	isPredicate := false
 	if r := fc.Call.Signature().Results(); r.Len() == 1 && types.Identical(r.At(0).Type().Underlying(), types.Typ[types.Bool]) {
 		isPredicate = true
 	}
-	blocked := map[ssa.Instruction]bool{}
-	if isPredicate {
-		// Filter: val = inner.Val(); yield only where f(val) is true
-		for _, st := range sts {
-			ok := innerVal(st.Val)
-			c.Check(ok, "O4", "R-FLOW", name, vf+"=inner.Val", st.Pos(), "the yielded value is the inner iterator's current value",
-				"the value stored for Val() is not the inner iterator's Val() read after its Next(): Filter yields values that are not elements of the underlying sequence")
-			if ok {
-				blocked[st] = true
+	// stores to the value field, judged in the method they live in
+	good := map[ssa.Instruction]bool{}
+	nSts := 0
+	for _, m := range closure {
+		for _, st := range an.StoresToFieldNamed(m, m.Params[0], vf) {
+			nSts++
+			mname := an.FuncName(m)
+			if isPredicate {
+				ok := innerVal(m, st.Val)
+				c.Check(ok, "O4", "R-FLOW", mname, vf+"=inner.Val", st.Pos(), "the yielded value is the inner iterator's current value",
+					"the value stored for Val() is not the inner iterator's Val() read after its Next(): Filter yields values that are not elements of the underlying sequence")
+				good[st] = ok
+			} else {
+				ok := m == cf && an.Aliases(fc)[st.Val]
+				c.Check(ok, "O4", "R-FLOW", mname, vf+"="+ff+"(..)", st.Pos(), "the yielded value is the image of the current element",
+					"the value stored for Val() is not the result of the mapping function")
+				good[st] = ok
 			}
 		}
+	}
+	c.Min("O4 stores to "+t.named.Obj().Name()+"."+vf, nSts, 1)
+	// in Next: instructions after which the value field holds the current value: a good store, or a call of a
+	// helper every return of which is preceded by a good store
+	blocked := map[ssa.Instruction]bool{}
+	for st, ok := range good {
+		if ok && st.Parent() == fn {
+			blocked[st] = true
+		}
+	}
+	for _, cl := range an.AllCalls(fn) {
+		cv := an.CallValue(cl)
+		if cv == nil {
+			continue
+		}
+		if h, _ := e.helperOf(fn, cv); h != nil {
+			var hs []ssa.Instruction
+			for st, ok := range good {
+				if ok && st.Parent() == h {
+					hs = append(hs, st)
+				}
+			}
+			all := len(hs) > 0
+			for _, r := range an.Returns(h) {
+				all = all && an.MustPrecede(h, r, hs)
+			}
+			if all {
+				blocked[cl] = true
+			}
+		}
+	}
+	if isPredicate {
 		// predicate argument: the stored value (load of the field after the store) or the same inner Val()
 		arg := fc.Call.Args
-		okArg := len(arg) == 1 && (innerVal(arg[0]) || (an.LoadOfField(arg[0], recv, vf) && len(sts) > 0 && func() bool {
-			for _, st := range sts {
-				if blocked[st] && an.Dominates(st, fc) {
+		okArg := len(arg) == 1 && (innerVal(cf, arg[0]) || (an.LoadOfField(arg[0], cf.Params[0], vf) && func() bool {
+			for st, ok := range good {
+				if ok && st.Parent() == cf && an.Dominates(st, fc) {
 					return true
 				}
 			}
 			return false
 		}()))
-		c.Check(okArg, "O4", "R-FLOW", name, ff+"(arg)=current", fc.Pos(), "the predicate is applied to the value that will be yielded",
+		c.Check(okArg, "O4", "R-FLOW", cname, ff+"(arg)=current", fc.Pos(), "the predicate is applied to the value that will be yielded",
 			"the predicate is not applied to the value just read from the inner iterator: elements are kept or dropped according to another element")
-		ptrue := an.BoolEdges(fn, []ssa.Value{fc}, true)
+		// fact: the predicate returned true
+		e.extra[c43PT] = func(m *ssa.Function, atom ssa.Value) (bool, bool) {
+			if m == cf && an.Aliases(fc)[atom] {
+				return true, false
+			}
+			return false, false
+		}
 		for _, r := range an.Returns(fn) {
+			r := r
 			if len(r.Results) == 1 && !c43IsConstBool(r.Results[0], false) {
-				ok := c43IsConstBool(r.Results[0], true) && !an.Reaches(fn, fc, r, ptrue, nil) && an.Dominates(fc, r)
-				c.Check(ok, "O4", "R-DOM", name, "return-true<="+ff+"-true", r.Pos(), "a value is yielded only where the predicate returned true",
+				guard := func(s an.EdgeSet) bool { return len(s) > 0 && an.GuardedBy(fn, nil, r, s) }
+				c.Check(e.valueImplies(fn, r.Results[0], true, guard, c43PT, 0), "O4", "R-DOM", name, "return-true<="+ff+"-true", r.Pos(), "a value is yielded only where the predicate returned true",
 					"Next() returns true on a path where the predicate did not return true: Filter yields rejected values (or the test is inverted)")
-				ok2 := !an.Reaches(fn, call, r, nil, blocked)
-				c.Check(ok2, "O4", "R-POST", name, "return-true<="+vf+"-store", r.Pos(), "the yielded value is stored before returning true",
+				c.Check(!reachesFromEvent(r, blocked), "O4", "R-POST", name, "return-true<="+vf+"-store", r.Pos(), "the yielded value is stored before returning true",
 					"Next() returns true without storing the current value: Val() yields a stale element")
 			}
 		}
 	} else {
 		// Map: val = f(inner.Val())
-		okArg := len(fc.Call.Args) == 1 && innerVal(fc.Call.Args[0])
-		c.Check(okArg, "O4", "R-FLOW", name, ff+"(arg)=inner.Val", fc.Pos(), "the mapping function is applied to the inner iterator's current value",
+		okArg := len(fc.Call.Args) == 1 && innerVal(cf, fc.Call.Args[0])
+		c.Check(okArg, "O4", "R-FLOW", cname, ff+"(arg)=inner.Val", fc.Pos(), "the mapping function is applied to the inner iterator's current value",
 			"the mapping function is not applied to the inner Val() read after the successful Next(): Map yields images of the wrong elements")
-		for _, st := range sts {
-			ok := an.Aliases(fc)[st.Val]
-			c.Check(ok, "O4", "R-FLOW", name, vf+"="+ff+"(..)", st.Pos(), "the yielded value is the image of the current element",
-				"the value stored for Val() is not the result of the mapping function")
-			if ok {
-				blocked[st] = true
-			}
-		}
 		for _, r := range an.Returns(fn) {
 			if len(r.Results) == 1 && !c43IsConstBool(r.Results[0], false) {
-				ok := !an.Reaches(fn, call, r, nil, blocked)
-				c.Check(ok, "O4", "R-POST", name, "return-true<="+vf+"-store", r.Pos(), "the mapped value is stored before returning true",
+				c.Check(!reachesFromEvent(r, blocked), "O4", "R-POST", name, "return-true<="+vf+"-store", r.Pos(), "the mapped value is stored before returning true",
 					"Next() returns true without storing f(inner.Val()): Val() yields a stale element")
 			}
 		}
 	}
-	c.Min("O4 stores to "+t.named.Obj().Name()+"."+vf, len(sts), 1)
+	_ = recv
 }
 
 func c43Slice(c *an.Ctx, t c43Type) {
@@ -752,15 +587,40 @@ func c43JSON(c *an.Ctx, t c43Type) {
 		return
 	}
 	done := t.bools[0]
+	// the Decode call: in Next, or in a package-local function Next calls that returns
+	// (decoded value, Decode's error) — then that call is the decode event in Next
+	dfn := fn
 	dec := an.Calls(fn, an.M("encoding/json", "Decoder", "Decode"))
-	if !c.Need(len(dec) == 1 && an.CallValue(dec[0]) != nil, "one json.Decoder.Decode call in JSONIter.Next") {
+	var hcall *ssa.Call
+	if len(dec) == 0 {
+		for _, cl := range an.AllCalls(fn) {
+			cv := an.CallValue(cl)
+			g := an.Callee(cl).Static
+			if g != nil && g.Origin() != nil {
+				g = g.Origin()
+			}
+			if cv == nil || g == nil || g == fn || len(g.Blocks) == 0 || g.Pkg != fn.Pkg {
+				continue
+			}
+			if ds := an.Calls(g, an.M("encoding/json", "Decoder", "Decode")); len(ds) > 0 {
+				dfn, dec, hcall = g, ds, cv
+			}
+		}
+	}
+	if !c.Need(len(dec) == 1 && an.CallValue(dec[0]) != nil, "one json.Decoder.Decode call in JSONIter.Next (or in a package-local function it calls)") {
 		return
 	}
 	d := dec[0]
+	// event: the instruction of Next at which the decode happens
+	var ev ssa.Instruction = d
+	if hcall != nil {
+		ev = hcall
+	}
 	dl := an.LoadsOfFieldNamed(fn, recv, done)
-	c.Check(an.GuardedBy(fn, nil, d.(ssa.Instruction), an.BoolEdges(fn, dl, false)), "O6", "R-DOM", name, "Decode<=!"+done, d.Pos(),
+	c.Check(an.GuardedBy(fn, nil, ev, an.BoolEdges(fn, dl, false)), "O6", "R-DOM", name, "Decode<=!"+done, ev.Pos(),
 		"Decode is only called where done is false", "Decode is called although the iterator is done/closed: values are read past the end or after Close")
 	errs := an.ErrResult(d)
+	var decoded []ssa.Value // the decoded value as seen in Next
 	// the destination of Decode is a fresh zero value of this call (encoding/json merges into a
 	// non-zero destination: absent fields keep old values, slices/maps/pointers are reused), never
 	// storage that survives between calls (a receiver field, a captured variable)
@@ -771,22 +631,64 @@ func c43JSON(c *an.Ctx, t c43Type) {
 		var cells []*ssa.Alloc
 		for _, r := range an.Roots(dst, nil) {
 			a, ok := r.(*ssa.Alloc)
-			if !ok || a.Parent() != fn {
+			if !ok || a.Parent() != dfn {
 				okFresh = false
 				why = "decodes into " + an.PathOf(r)
 				continue
 			}
 			cells = append(cells, a)
 			for _, ref := range *a.Referrers() {
-				if st, ok := ref.(*ssa.Store); ok && st.Addr == ssa.Value(a) && an.Reaches(fn, st, d.(ssa.Instruction), nil, nil) {
+				if st, ok := ref.(*ssa.Store); ok && st.Addr == ssa.Value(a) && an.Reaches(dfn, st, d.(ssa.Instruction), nil, nil) {
 					okFresh = false
 					why = "the destination is written before Decode"
 				}
 			}
 		}
-		c.Check(okFresh && len(cells) > 0, "O6", "R-FLOW", name, "Decode(&fresh-zero-value)", d.Pos(),
+		c.Check(okFresh && len(cells) > 0, "O6", "R-FLOW", an.FuncName(dfn), "Decode(&fresh-zero-value)", d.Pos(),
 			"every Next decodes into a fresh zero value",
 			"Decode's destination is not a fresh per-call zero value ("+why+"): encoding/json merges into the previous element, so a value that omits a field inherits it from an earlier one and previously yielded slices/maps/pointers are overwritten — the yielded list differs from the element-wise decode")
+		isDecodedLoad := func(v ssa.Value) bool {
+			u, ok := v.(*ssa.UnOp)
+			if !ok || u.Op != token.MUL {
+				return false
+			}
+			for _, a := range cells {
+				if u.X == ssa.Value(a) && an.Dominates(d.(ssa.Instruction), u) {
+					return true
+				}
+			}
+			return false
+		}
+		if hcall != nil {
+			// the helper hands on exactly (decoded value, Decode's error)
+			vi, ei := -1, -1
+			okH := true
+			for _, r := range an.Returns(dfn) {
+				for k, rv := range r.Results {
+					switch {
+					case isDecodedLoad(rv):
+						if vi >= 0 && vi != k {
+							okH = false
+						}
+						vi = k
+					case an.Aliases(errs...)[rv]:
+						if ei >= 0 && ei != k {
+							okH = false
+						}
+						ei = k
+					default:
+						okH = false
+					}
+				}
+			}
+			if !c.Check(okH && vi >= 0 && ei >= 0, "O6", "R-FLOW", an.FuncName(dfn), "return=(decoded,Decode-error)", dfn.Pos(),
+				"the decode helper returns the decoded value and the Decode error unchanged",
+				"the decode helper does not return exactly (the value it decoded, the error of Decode): Next judges end-of-input and errors on something else than the decoder's result") {
+				return
+			}
+			decoded = an.Result(hcall, vi)
+			errs = an.Result(hcall, ei)
+		}
 		// the yielded value is that destination, read after Decode
 		if okFresh {
 			nVal := 0
@@ -801,18 +703,13 @@ func c43JSON(c *an.Ctx, t c43Type) {
 					return
 				}
 				nVal++
-				u, ok := st.Val.(*ssa.UnOp)
-				good := false
-				if ok && u.Op == token.MUL {
-					for _, a := range cells {
-						if u.X == ssa.Value(a) && an.Dominates(d.(ssa.Instruction), u) {
-							good = true
-						}
-					}
+				good := isDecodedLoad(st.Val)
+				if hcall != nil {
+					good = an.Aliases(decoded...)[st.Val]
 				}
 				okVal = okVal && good
 			})
-			c.Check(okVal && nVal > 0, "O6", "R-FLOW", name, "res.Val=decoded", d.Pos(), "the yielded value is the freshly decoded one",
+			c.Check(okVal && nVal > 0, "O6", "R-FLOW", name, "res.Val=decoded", ev.Pos(), "the yielded value is the freshly decoded one",
 				"the value stored for Val() is not the destination of this call's Decode (read after it): stale or foreign values are yielded")
 		}
 	}
@@ -843,15 +740,15 @@ func c43JSON(c *an.Ctx, t c43Type) {
 	}
 	nEOF := 0
 	for _, r := range an.Returns(fn) {
-		if len(r.Results) != 1 || !an.Reaches(fn, d, r, nil, nil) {
+		if len(r.Results) != 1 || !an.Reaches(fn, ev, r, nil, nil) {
 			continue
 		}
 		if c43IsConstBool(r.Results[0], false) {
 			nEOF++
-			ok := len(eofT) > 0 && !an.Reaches(fn, d, r, eofT, nil)
+			ok := len(eofT) > 0 && !an.Reaches(fn, ev, r, eofT, nil)
 			c.Check(ok, "O6", "R-DOM", name, "return-false<=EOF", r.Pos(), "after Decode the iteration ends only on io.EOF",
 				"Next() returns false after Decode on a path where the error is not io.EOF: a decodable value or a decode error is swallowed")
-			ok2 := !an.Reaches(fn, d, r, nil, blocked)
+			ok2 := !an.Reaches(fn, ev, r, nil, blocked)
 			c.Check(ok2, "O6", "R-POST", name, "EOF=>"+done, r.Pos(), "end of input is recorded in done", "end of input is not recorded in done: Decode is called again after EOF")
 		}
 	}
@@ -872,11 +769,11 @@ func c43JSON(c *an.Ctx, t c43Type) {
 	isNil := an.NilEdges(fn, errs, true).Union(an.NilEdges(fn, errLoads, true))
 	okErr := true
 	for _, r := range an.Returns(fn) {
-		if len(r.Results) == 1 && !c43IsConstBool(r.Results[0], false) && an.Reaches(fn, d, r, isNil.Union(eofT), blocked) {
+		if len(r.Results) == 1 && !c43IsConstBool(r.Results[0], false) && an.Reaches(fn, ev, r, isNil.Union(eofT), blocked) {
 			okErr = false
 		}
 	}
-	c.Check(okErr, "O6", "R-POST", name, "err=>"+done, d.Pos(), "a decode error stops the iteration (done set)",
+	c.Check(okErr, "O6", "R-POST", name, "err=>"+done, ev.Pos(), "a decode error stops the iteration (done set)",
 		"Next() can return true after a decode error without setting done: the iterator keeps decoding a broken stream and can yield garbage or loop forever")
 	// Close: done = true on every path and the reader is closed when it is an io.Closer
 	cl := t.close
@@ -893,57 +790,708 @@ func c43JSON(c *an.Ctx, t c43Type) {
 	}
 	c.Check(okD, "O6", "R-POST", an.FuncName(cl), "Close=>"+done, cl.Pos(), "Close marks the iterator done on every path",
 		"JSONIter.Close does not set done on every path: Next() after Close decodes from a closed reader")
-	// reader closed: a TypeAssert of a receiver field to an interface with Close, and a Close call on it guarded by ok
-	var closeCalls []ssa.Instruction
-	okEdges := an.EdgeSet{}
-	for _, call := range an.AllCalls(cl) {
-		cc := call.Common()
-		if !cc.IsInvoke() || cc.Method.Name() != "Close" {
-			continue
-		}
-		for _, root := range an.Roots(cc.Value, nil) {
-			ex, ok := root.(*ssa.Extract)
-			var ta *ssa.TypeAssert
-			if ok {
-				ta, _ = ex.Tuple.(*ssa.TypeAssert)
-			} else {
-				ta, _ = root.(*ssa.TypeAssert)
+	// reader closed: the value of a receiver field is closed when it is an io.Closer (type assertion + Close
+	// on the ok edge), in Close itself or in a package-local function the field value is handed to
+	okC := c43ClosesIfCloser(cl, func(v ssa.Value) bool {
+		if u, ok := v.(*ssa.UnOp); ok && u.Op == token.MUL {
+			if n, b := an.FieldName(u.X); n != "" && an.SameObj(b, crecv) {
+				return true
 			}
-			_ = ta
 		}
-		// provenance: the receiver of Close derives from a load of a receiver field (through the type assertion)
-		fromField := false
-		for _, root := range an.Roots(cc.Value, nil) {
-			if u, ok := root.(*ssa.UnOp); ok && u.Op == token.MUL {
-				if n, b := an.FieldName(u.X); n != "" && an.SameObj(b, crecv) {
-					fromField = true
+		return false
+	}, 0)
+	c.Check(okC, "O6", "R-POST", an.FuncName(cl), "Close=>Reader.Close", cl.Pos(), "Close closes the reader whenever it is an io.Closer",
+		"JSONIter.Close can return without closing a reader that is an io.Closer: the HTTP response body leaks")
+}
+
+// ---------------------------------------------------------------- fact engine
+//
+// The yield rules are statements of the form "site S is only reached where fact
+// F holds" / "value V being true (false) implies fact F". Facts are decided on
+// CFG edges from the condition that is branched on. To stay valid when a block
+// is extracted into a helper method of the same receiver (advance(), reached()),
+// a call of such a helper is itself an atom: its true/false outcome implies F
+// when every return of the helper that can produce that outcome implies F
+// (constant results by the guards on the path to the return, phis edge by edge,
+// other values by the atom they are). A site inside a helper is guarded when it
+// is guarded inside the helper or at every call site of the helper.
+
+const (
+	c43IT   = "inner-true"     // the inner Next() of this activation returned true
+	c43EXH  = "exhausted"      // the inner Next() returned false (now or earlier: done flag set)
+	c43NOTD = "not-done"       // the done flag is false
+	c43OKF  = "limit-open"     // limit <= 0 or count < limit
+	c43LPOS = "limit-pos"      // limit > 0
+	c43CGE  = "count-ge"       // count >= limit
+	c43PT   = "predicate-true" // the predicate of a filtering wrapper returned true (registered by the O4 rules)
+)
+
+type c43Eng struct {
+	c            *an.Ctx
+	t            c43Type
+	inner        string
+	done         string
+	doneOK       bool
+	limit, count string
+	methods      []*ssa.Function
+	memoRet      map[string]int
+	memoEdges    map[string]an.EdgeSet
+	memoHas      map[*ssa.Function]int
+	closure      map[*ssa.Function]bool
+	extra        map[string]func(fn *ssa.Function, atom ssa.Value) (bool, bool)
+}
+
+func c43NewEng(c *an.Ctx, t c43Type) *c43Eng {
+	e := &c43Eng{c: c, t: t, inner: t.inner[0], memoRet: map[string]int{}, memoEdges: map[string]an.EdgeSet{}, memoHas: map[*ssa.Function]int{}, extra: map[string]func(*ssa.Function, ssa.Value) (bool, bool){}}
+	e.methods = c.P.MethodsG(t.named)
+	// the same-receiver methods Next (transitively) calls
+	e.closure = map[*ssa.Function]bool{t.next: true}
+	for changed := true; changed; {
+		changed = false
+		for m := range e.closure {
+			for _, cl := range an.AllCalls(m) {
+				if cv := an.CallValue(cl); cv != nil {
+					if h, _ := e.helperOf(m, cv); h != nil && !e.closure[h] {
+						e.closure[h] = true
+						changed = true
+					}
 				}
 			}
 		}
-		if fromField {
-			closeCalls = append(closeCalls, call)
+	}
+	if !e.hasInner(t.next) {
+		c.Problem("%s: no call of the inner Next() in Next or in the same-receiver methods it calls", an.FuncName(t.next))
+		return nil
+	}
+	// done flag: a bool field stored in a function of Next's closure that performs the inner call
+	for _, b := range t.bools {
+		for _, m := range e.methods {
+			if e.hasInner(m) && len(an.StoresToFieldNamed(m, m.Params[0], b)) > 0 && len(c43InnerCalls(m, e.inner, "Next")) > 0 {
+				if e.done != "" && e.done != b {
+					c.Problem("%s: two bool fields stored next to the inner Next() (%s, %s): done-flag role ambiguous", c43TypeName(t), e.done, b)
+				}
+				e.done = b
+			}
 		}
 	}
-	an.Instrs(cl, func(in ssa.Instruction) {
-		if ta, ok := in.(*ssa.TypeAssert); ok && ta.CommaOk {
+	// every store to the flag next to the inner call is `!result` or `true` on the inner-false edge
+	e.doneOK = e.done != ""
+	if e.done != "" {
+		for _, m := range e.methods {
+			calls := c43InnerCalls(m, e.inner, "Next")
+			if len(calls) == 0 {
+				continue
+			}
+			var res []ssa.Value
+			for _, cl := range calls {
+				if v := an.CallValue(cl); v != nil {
+					res = append(res, v)
+				}
+			}
+			al := an.Aliases(res...)
+			fa := an.BoolEdges(m, res, false)
+			for _, st := range an.StoresToFieldNamed(m, m.Params[0], e.done) {
+				if u, ok := st.Val.(*ssa.UnOp); ok && u.Op == token.NOT && al[u.X] {
+					continue
+				}
+				if c43IsConstBool(st.Val, true) && len(fa) > 0 && an.GuardedBy(m, nil, st, fa) {
+					continue
+				}
+				e.doneOK = false
+				c.Bad("O3", "R-DOM", an.FuncName(m), e.done+"=<=inner-false", st.Pos(),
+					"the "+e.done+" flag is stored with something other than the negated inner result, or set where the inner Next() did not return false: the iteration stops although the underlying iterator has more values")
+			}
+		}
+	}
+	// limit / count roles: count = int field stored in Next's closure, limit = the other one
+	for _, f := range t.ints {
+		stored := false
+		for _, m := range e.methods {
+			if e.closure[m] && len(an.StoresToFieldNamed(m, m.Params[0], f)) > 0 {
+				stored = true
+			}
+		}
+		if stored {
+			if e.count != "" {
+				c.Problem("%s: two int fields stored in Next: counter role ambiguous", c43TypeName(t))
+			}
+			e.count = f
+		}
+	}
+	for _, f := range t.ints {
+		if f != e.count && e.count != "" {
+			if e.limit != "" {
+				c.Problem("%s: two int fields never stored in Next: limit role ambiguous", c43TypeName(t))
+			}
+			e.limit = f
+		}
+	}
+	return e
+}
+
+// helper: static call of a declared method of the same type on the same receiver.
+func (e *c43Eng) helperOf(fn *ssa.Function, v ssa.Value) (*ssa.Function, *ssa.Call) {
+	call, ok := v.(*ssa.Call)
+	if !ok || call.Call.IsInvoke() || len(fn.Params) == 0 {
+		return nil, nil
+	}
+	g := an.Callee(call).Static
+	if g == nil {
+		return nil, nil
+	}
+	if g.Origin() != nil {
+		g = g.Origin()
+	}
+	for _, m := range e.methods {
+		if m == g && m != fn {
+			if r := an.Recv(call); r != nil && an.SameObj(r, fn.Params[0]) {
+				return m, call
+			}
+		}
+	}
+	return nil, nil
+}
+
+// hasInner: fn performs the inner Next() itself or through same-receiver helpers.
+func (e *c43Eng) hasInner(fn *ssa.Function) bool {
+	switch e.memoHas[fn] {
+	case 1:
+		return true
+	case 2, 3:
+		return false
+	}
+	e.memoHas[fn] = 3
+	res := len(c43InnerCalls(fn, e.inner, "Next")) > 0
+	if !res {
+		for _, cl := range an.AllCalls(fn) {
+			if cv := an.CallValue(cl); cv != nil {
+				if h, _ := e.helperOf(fn, cv); h != nil && e.hasInner(h) {
+					res = true
+				}
+			}
+		}
+	}
+	if res {
+		e.memoHas[fn] = 1
+	} else {
+		e.memoHas[fn] = 2
+	}
+	return res
+}
+
+// events: the instructions of fn at which the inner Next() happens (direct call or helper call).
+func (e *c43Eng) events(fn *ssa.Function) []ssa.Instruction {
+	var out []ssa.Instruction
+	for _, cl := range c43InnerCalls(fn, e.inner, "Next") {
+		out = append(out, cl)
+	}
+	for _, cl := range an.AllCalls(fn) {
+		if cv := an.CallValue(cl); cv != nil {
+			if h, _ := e.helperOf(fn, cv); h != nil && e.hasInner(h) {
+				out = append(out, cl)
+			}
+		}
+	}
+	return out
+}
+
+func c43NegOp(op token.Token) token.Token {
+	switch op {
+	case token.LSS:
+		return token.GEQ
+	case token.LEQ:
+		return token.GTR
+	case token.GTR:
+		return token.LEQ
+	case token.GEQ:
+		return token.LSS
+	case token.EQL:
+		return token.NEQ
+	case token.NEQ:
+		return token.EQL
+	}
+	return token.ILLEGAL
+}
+
+func c43Strip(v ssa.Value) (ssa.Value, bool) {
+	neg := false
+	for {
+		u, ok := v.(*ssa.UnOp)
+		if !ok || u.Op != token.NOT {
+			return v, neg
+		}
+		neg = !neg
+		v = u.X
+	}
+}
+
+// relHolds: does the comparison (a op b), known to hold, establish the fact?
+func (e *c43Eng) relHolds(fn *ssa.Function, fact string, a, b ssa.Value, op token.Token) bool {
+	recv := fn.Params[0]
+	isCount := func(v ssa.Value) bool { return e.count != "" && an.LoadOfField(v, recv, e.count) }
+	isLimit := func(v ssa.Value) bool { return e.limit != "" && an.LoadOfField(v, recv, e.limit) }
+	if _, ok := an.IntConst(a); ok {
+		a, b, op = b, a, an.SwapRel(op)
+	}
+	if k, ok := an.IntConst(b); ok && isLimit(a) {
+		switch fact {
+		case c43OKF:
+			return (op == token.LEQ && k <= 0) || (op == token.EQL && k <= 0) || (op == token.LSS && k <= 1)
+		case c43LPOS:
+			return (op == token.GTR && k >= 0) || (op == token.GEQ && k >= 1)
+		}
+		return false
+	}
+	if isLimit(a) && isCount(b) {
+		a, b, op = b, a, an.SwapRel(op)
+	}
+	if isCount(a) && isLimit(b) {
+		switch fact {
+		case c43OKF:
+			return op == token.LSS || op == token.NEQ
+		case c43CGE:
+			return op == token.GEQ || op == token.EQL || op == token.GTR
+		}
+	}
+	return false
+}
+
+// atomFact: on which outcome of the boolean atom does the fact hold?
+func (e *c43Eng) atomFact(fn *ssa.Function, fact string, atom ssa.Value) (onT, onF bool) {
+	if len(fn.Params) == 0 {
+		return false, false
+	}
+	recv := fn.Params[0]
+	if h, _ := e.helperOf(fn, atom); h != nil {
+		if rs := h.Signature.Results(); rs.Len() == 1 && types.Identical(rs.At(0).Type().Underlying(), types.Typ[types.Bool]) {
+			return e.retImplies(h, true, fact), e.retImplies(h, false, fact)
+		}
+		return false, false
+	}
+	// direct inner result
+	var res []ssa.Value
+	for _, cl := range c43InnerCalls(fn, e.inner, "Next") {
+		if v := an.CallValue(cl); v != nil {
+			res = append(res, v)
+		}
+	}
+	if len(res) > 0 && an.Aliases(res...)[atom] {
+		switch fact {
+		case c43IT:
+			return true, false
+		case c43EXH:
+			return false, true
+		}
+		return false, false
+	}
+	// the done flag
+	if e.done != "" && an.LoadOfField(atom, recv, e.done) {
+		switch fact {
+		case c43EXH:
+			return e.doneOK, false
+		case c43NOTD:
+			return false, true
+		case c43IT:
+			// false only proves "inner returned true" right after `done = !result` in this function
+			if !e.doneOK || len(res) == 0 {
+				return false, false
+			}
+			li, ok := atom.(ssa.Instruction)
+			if !ok {
+				return false, false
+			}
+			al := an.Aliases(res...)
+			for _, st := range an.StoresToFieldNamed(fn, recv, e.done) {
+				if u, ok := st.Val.(*ssa.UnOp); ok && u.Op == token.NOT && al[u.X] && an.Dominates(st, li) {
+					return false, true
+				}
+			}
+		}
+		return false, false
+	}
+	if f := e.extra[fact]; f != nil {
+		if t, fl := f(fn, atom); t || fl {
+			return t, fl
+		}
+	}
+	if b, ok := atom.(*ssa.BinOp); ok && c43NegOp(b.Op) != token.ILLEGAL {
+		// bool == const forms are handled by BoolEdges-like reasoning: x == true / x == false
+		if k, ok := an.ConstOf(b.Y); ok && k.Kind() == constant.Bool && (b.Op == token.EQL || b.Op == token.NEQ) {
+			t, f := e.atomFact(fn, fact, b.X)
+			if (k.String() == "true") != (b.Op == token.EQL) {
+				t, f = f, t
+			}
+			return t, f
+		}
+		return e.relHolds(fn, fact, b.X, b.Y, b.Op), e.relHolds(fn, fact, b.X, b.Y, c43NegOp(b.Op))
+	}
+	return false, false
+}
+
+func (e *c43Eng) edges(fn *ssa.Function, fact string) an.EdgeSet {
+	key := an.FuncName(fn) + "|" + fact
+	if s, ok := e.memoEdges[key]; ok {
+		return s
+	}
+	s := an.CondEdges(fn, func(atom ssa.Value) (bool, bool) { return e.atomFact(fn, fact, atom) })
+	e.memoEdges[key] = s
+	return s
+}
+
+// valueImplies: whenever v (evaluated where `guard` describes the path) equals want, the fact holds.
+func (e *c43Eng) valueImplies(fn *ssa.Function, v ssa.Value, want bool, guard func(an.EdgeSet) bool, fact string, depth int) bool {
+	if s := e.edges(fn, fact); len(s) > 0 && guard(s) {
+		return true
+	}
+	if depth > 6 {
+		return false
+	}
+	if k, ok := an.ConstOf(v); ok && k.Kind() == constant.Bool {
+		return (k.String() == "true") != want // the other constant can never equal want
+	}
+	if ph, ok := v.(*ssa.Phi); ok {
+		for i, x := range ph.Edges {
+			i := i
+			if !e.valueImplies(fn, x, want, func(s an.EdgeSet) bool { return guard(s) || an.PhiEdgeGuarded(fn, ph, i, s) }, fact, depth+1) {
+				return false
+			}
+		}
+		return true
+	}
+	a, neg := c43Strip(v)
+	onT, onF := e.atomFact(fn, fact, a)
+	if want != neg {
+		return onT
+	}
+	return onF
+}
+
+func (e *c43Eng) retImplies(h *ssa.Function, want bool, fact string) bool {
+	key := fmt.Sprintf("%s|%v|%s", an.FuncName(h), want, fact)
+	switch e.memoRet[key] {
+	case 1:
+		return true
+	case 2, 3:
+		return false
+	}
+	e.memoRet[key] = 3 // in progress: recursion answers false
+	ok := true
+	rets := an.Returns(h)
+	if len(rets) == 0 {
+		ok = false
+	}
+	for _, r := range rets {
+		r := r
+		if len(r.Results) != 1 {
+			ok = false
+			continue
+		}
+		if !e.valueImplies(h, r.Results[0], want, func(s an.EdgeSet) bool { return len(s) > 0 && an.GuardedBy(h, nil, r, s) }, fact, 0) {
+			ok = false
+		}
+	}
+	if ok {
+		e.memoRet[key] = 1
+	} else {
+		e.memoRet[key] = 2
+	}
+	return ok
+}
+
+// guardedSite: site (in fn) is only reached where the fact holds, decided in fn or,
+// when fn is a helper, at every one of its call sites.
+func (e *c43Eng) guardedSite(fn *ssa.Function, site ssa.Instruction, fact string, depth int) bool {
+	if s := e.edges(fn, fact); len(s) > 0 && an.GuardedBy(fn, nil, site, s) {
+		return true
+	}
+	if depth > 3 {
+		return false
+	}
+	n := 0
+	for _, m := range e.methods {
+		for _, cl := range an.AllCalls(m) {
+			cv := an.CallValue(cl)
+			if cv == nil {
+				continue
+			}
+			if h, _ := e.helperOf(m, cv); h == fn {
+				n++
+				if !e.guardedSite(m, cv, fact, depth+1) {
+					return false
+				}
+			}
+		}
+	}
+	return n > 0
+}
+
+// checkYield: O2/O3 rules common to all wrappers.
+func (e *c43Eng) checkYield() {
+	c, t := e.c, e.t
+	fn := t.next
+	name := an.FuncName(fn)
+	ob := "O3"
+	if len(t.ints) > 0 {
+		ob = "O2"
+	}
+	evs := e.events(fn)
+	for _, r := range an.Returns(fn) {
+		r := r
+		if len(r.Results) != 1 {
+			continue
+		}
+		v := r.Results[0]
+		guard := func(s an.EdgeSet) bool { return len(s) > 0 && an.GuardedBy(fn, nil, r, s) }
+		if !c43IsConstBool(v, false) {
+			c.Check(e.valueImplies(fn, v, true, guard, c43IT, 0), ob, "R-DOM", name, "return-true<=inner-true", r.Pos(),
+				"Next() returns true only where the inner Next() returned true",
+				"Next() can return true without the inner Next() having returned true: a value is yielded that the underlying sequence does not contain (stale/duplicate element)")
+		}
+		if !c43IsConstBool(v, true) {
+			after := false
+			for _, ev := range evs {
+				after = after || an.Reaches(fn, ev, r, nil, nil)
+			}
+			okExh := e.valueImplies(fn, v, false, guard, c43EXH, 0)
+			switch {
+			case after && e.limit == "":
+				c.Check(okExh, ob, "R-DOM", name, "return-false<=inner-false", r.Pos(),
+					"the iterator reports exhaustion only where the inner one did (now or earlier)",
+					"Next() can return false although the inner Next() returned true: the sequence is cut short (e.g. a filter that stops at the first rejected value instead of skipping it)")
+			case e.limit == "":
+				c.Check(okExh, ob, "R-DOM", name, "early-false<=exhausted", r.Pos(),
+					"Next() gives up before consulting the inner iterator only where it is already exhausted",
+					"Next() can return false before consulting the inner iterator although it is not known to be exhausted: values are lost")
+			default:
+				// a limited iterator may also stop where limit>0 and count>=limit, but only before consuming a value:
+				// every path to the return crosses an exhaustion edge, or both a limit>0 and a count>=limit edge
+				exh := e.edges(fn, c43EXH)
+				okHit := c43IsConstBool(v, false) &&
+					an.GuardedBy(fn, nil, r, exh.Union(e.edges(fn, c43LPOS))) && len(e.edges(fn, c43LPOS)) > 0 &&
+					an.GuardedBy(fn, nil, r, exh.Union(e.edges(fn, c43CGE))) && len(e.edges(fn, c43CGE)) > 0
+				// paths that come from an inner-true outcome must not end in `false`
+				noLoss := true
+				for _, ev := range evs {
+					if c43IsConstBool(v, false) && an.Reaches(fn, ev, r, exh, nil) {
+						noLoss = false
+					}
+				}
+				construct := "early-false<=(limit>0&&count>=limit)"
+				if after {
+					construct = "return-false<=inner-false|limit-hit"
+				}
+				c.Check((okExh || okHit) && (noLoss || okExh), ob, "R-CMP", name, construct, r.Pos(),
+					"Next() returns false only where the inner iterator is exhausted, or before consulting it where "+e.limit+">0 and "+e.count+">="+e.limit,
+					"Next() can return false although the inner iterator is not exhausted and the limit is not reached ("+e.limit+"<=0 is documented as 'no limit'), or after a value was taken from the inner iterator: fewer values than the limit are yielded")
+			}
+		}
+	}
+	if e.done == "" {
+		return
+	}
+	// the inner Next() only where done is false; exhaustion recorded on every path
+	for _, m := range e.methods {
+		for _, cl := range c43InnerCalls(m, e.inner, "Next") {
+			if !e.hasInner(fn) {
+				continue
+			}
+			mname := an.FuncName(m)
+			c.Check(e.guardedSite(m, cl, c43NOTD, 0), "O3", "R-DOM", mname, "inner-Next<=!"+e.done, cl.Pos(),
+				"inner Next() is only called where "+e.done+" is false",
+				"inner Next() is called although "+e.done+" is set: the wrapper reads the underlying iterator after it reported exhaustion")
+			res := an.CallValue(cl)
+			if res == nil {
+				continue
+			}
+			tr := an.BoolEdges(m, []ssa.Value{res}, true)
+			fa := an.BoolEdges(m, []ssa.Value{res}, false)
+			blocked := map[ssa.Instruction]bool{}
+			al := an.Aliases(res)
+			for _, st := range an.StoresToFieldNamed(m, m.Params[0], e.done) {
+				if u, ok := st.Val.(*ssa.UnOp); ok && u.Op == token.NOT && al[u.X] {
+					blocked[st] = true
+				} else if c43IsConstBool(st.Val, true) && len(fa) > 0 && !an.Reaches(m, cl, st, fa, nil) {
+					blocked[st] = true
+				}
+			}
+			okRec := true
+			for _, r := range an.Returns(m) {
+				if an.Reaches(m, cl, r, tr, blocked) {
+					okRec = false
+				}
+			}
+			c.Check(okRec, "O3", "R-POST", mname, "inner-false=>"+e.done, cl.Pos(),
+				"exhaustion of the inner iterator is recorded in "+e.done+" on every path",
+				"the inner Next() can return false without "+e.done+" being set: a later Next() reads the exhausted underlying iterator again")
+		}
+	}
+}
+
+// checkLimit: O2 rules of the limiting wrapper.
+func (e *c43Eng) checkLimit() {
+	c, t := e.c, e.t
+	fn := t.next
+	name := an.FuncName(fn)
+	if e.count == "" {
+		c.Bad("O2", "R-POST", name, "inner-true=>count++", fn.Pos(), "no integer field of LimitIter is advanced in Next(): yielded values are not counted, the limit is never enforced")
+		return
+	}
+	if !c.Need(e.limit != "", "LimitIter limit field (by role: integer field not stored in Next)") {
+		return
+	}
+	limit, count := e.limit, e.count
+	nCalls := 0
+	for _, m := range e.methods {
+		if !e.hasInner(m) {
+			continue
+		}
+		for _, cl := range c43InnerCalls(m, e.inner, "Next") {
+			nCalls++
+			c.Check(e.guardedSite(m, cl, c43OKF, 0), "O2", "R-CMP", an.FuncName(m), "inner-Next<=(limit<=0||count<limit)", cl.Pos(),
+				"the inner Next() is reached only where "+limit+"<=0 or "+count+"<"+limit,
+				"the inner Next() is reachable with "+limit+">0 and "+count+">="+limit+": LimitIter consumes an element of the underlying iterator beyond the limit (over-read) or yields more than limit values")
+		}
+	}
+	c.Min("O2 inner Next() calls of the limiting wrapper", nCalls, 1)
+	// count += 1, only where the inner Next returned true
+	nSt := 0
+	blocked := map[ssa.Instruction]bool{}
+	storing := map[*ssa.Function]bool{} // helpers that advance the counter on every path
+	for _, m := range e.methods {
+		if !e.closure[m] {
+			continue
+		}
+		recv := m.Params[0]
+		sts := an.StoresToFieldNamed(m, recv, count)
+		for _, st := range sts {
+			nSt++
+			okStep := false
+			if b, ok := st.Val.(*ssa.BinOp); ok && b.Op == token.ADD {
+				if k, ok := an.IntConst(b.Y); ok && k == 1 && an.LoadOfField(b.X, recv, count) {
+					okStep = true
+				} else if k, ok := an.IntConst(b.X); ok && k == 1 && an.LoadOfField(b.Y, recv, count) {
+					okStep = true
+				}
+			}
+			mname := an.FuncName(m)
+			c.Check(okStep, "O2", "R-CONST", mname, count+"+=1", st.Pos(), "the counter advances by exactly one per yielded value",
+				"the counter is not advanced by exactly 1: the number of yielded values differs from the limit")
+			c.Check(e.guardedSite(m, st, c43IT, 0), "O2", "R-DOM", mname, count+"++<=inner-true", st.Pos(), "the counter advances only where the inner Next() returned true",
+				"the counter advances although the inner Next() did not return true: fewer than limit values are yielded")
+			if okStep && m == fn {
+				blocked[st] = true
+			}
+		}
+		if m != fn && len(sts) > 0 {
+			all := true
+			for _, r := range an.Returns(m) {
+				all = all && an.MustPrecede(m, r, an.AsInstrs(sts))
+			}
+			storing[m] = all
+		}
+	}
+	c.Min("O2 stores to the LimitIter counter", nSt, 1)
+	for _, cl := range an.AllCalls(fn) {
+		if cv := an.CallValue(cl); cv != nil {
+			if h, _ := e.helperOf(fn, cv); h != nil && storing[h] {
+				blocked[cl] = true
+			}
+		}
+	}
+	ok := true
+	for _, ev := range e.events(fn) {
+		for _, r := range an.Returns(fn) {
+			if an.Reaches(fn, ev, r, e.edges(fn, c43EXH), blocked) {
+				ok = false
+			}
+		}
+	}
+	c.Check(ok, "O2", "R-POST", name, "inner-true=>"+count+"++", fn.Pos(), "every value taken from the inner iterator is counted",
+		"a path returns after the inner Next() returned true without advancing the counter: more than limit values can be yielded")
+	// Val forwards the inner Val
+	okVal := false
+	rets := an.Returns(t.val)
+	if len(rets) > 0 {
+		okVal = true
+		for _, r := range rets {
+			good := false
+			if len(r.Results) == 1 {
+				for _, vc := range c43InnerCalls(t.val, t.inner[0], "Val") {
+					if an.CallValue(vc) != nil && an.Aliases(an.CallValue(vc))[r.Results[0]] {
+						good = true
+					}
+				}
+			}
+			okVal = okVal && good
+		}
+	}
+	c.Check(okVal, "O2", "R-FLOW", an.FuncName(t.val), "Val=inner.Val", t.val.Pos(), "Val() returns the inner iterator's current value",
+		"LimitIter.Val() does not return the inner iterator's Val(): the limited sequence is not a prefix of the underlying one")
+}
+
+// c43ClosesIfCloser: on every path of fn to a normal return, a value satisfying
+// subject (after value-preserving ops) has been closed through a type assertion
+// to an interface with Close — or the path crossed that assertion's "not ok"
+// edge — directly or in a static callee that receives the value.
+func c43ClosesIfCloser(fn *ssa.Function, subject func(ssa.Value) bool, depth int) bool {
+	fromSubject := func(v ssa.Value) bool {
+		rs := an.Roots(v, nil)
+		if len(rs) == 0 {
+			return false
+		}
+		for _, r := range rs {
+			if !subject(r) {
+				return false
+			}
+		}
+		return true
+	}
+	blocked := map[ssa.Instruction]bool{}
+	notCloser := an.EdgeSet{}
+	for _, call := range an.AllCalls(fn) {
+		cc := call.Common()
+		if cc.IsInvoke() && cc.Method.Name() == "Close" && fromSubject(cc.Value) {
+			blocked[call] = true
+			continue
+		}
+		if depth < 2 && !cc.IsInvoke() {
+			g := an.Callee(call).Static
+			if g != nil && g.Origin() != nil {
+				g = g.Origin()
+			}
+			if g == nil || g == fn || len(g.Blocks) == 0 || g.Pkg != fn.Pkg {
+				continue
+			}
+			for i, a := range cc.Args {
+				if i < len(g.Params) && fromSubject(a) {
+					prm := g.Params[i]
+					if c43ClosesIfCloser(g, func(v ssa.Value) bool { return v == ssa.Value(prm) }, depth+1) {
+						blocked[call] = true
+					}
+				}
+			}
+		}
+	}
+	an.Instrs(fn, func(in ssa.Instruction) {
+		if ta, ok := in.(*ssa.TypeAssert); ok && ta.CommaOk && fromSubject(ta.X) {
 			for _, ref := range *ta.Referrers() {
 				if ex, ok := ref.(*ssa.Extract); ok && ex.Index == 1 {
-					okEdges = okEdges.Union(an.BoolEdges(cl, []ssa.Value{ex}, false))
+					notCloser = notCloser.Union(an.BoolEdges(fn, []ssa.Value{ex}, false))
 				}
 			}
 		}
 	})
-	okC := len(closeCalls) > 0
-	for _, r := range an.Returns(cl) {
-		// a return may skip the Close only along the "not a Closer" edge
-		bl := map[ssa.Instruction]bool{}
-		for _, x := range closeCalls {
-			bl[x] = true
-		}
-		if an.Reaches(cl, nil, r, okEdges, bl) {
-			okC = false
+	if len(blocked) == 0 {
+		return false
+	}
+	rets := an.Returns(fn)
+	if len(rets) == 0 {
+		return false
+	}
+	for _, r := range rets {
+		if an.Reaches(fn, nil, r, notCloser, blocked) {
+			return false
 		}
 	}
-	c.Check(okC, "O6", "R-POST", an.FuncName(cl), "Close=>Reader.Close", cl.Pos(), "Close closes the reader whenever it is an io.Closer",
-		"JSONIter.Close can return without closing a reader that is an io.Closer: the HTTP response body leaks")
+	return true
 }
